@@ -9,18 +9,18 @@ from engine.loader import AnalysisError
 from .ctxuse import attr_reads, single_defs
 
 META = {
-    'text': 'Static closed-use and arithmetic rules for the max_seq_len setting in the core printers: (a) the setting is '
-            'used only as the right operand of len(x) > N, the subtrahend of len(x) - N under that guard, the first argument '
-            'of take and as pass-along; (b) the number formatted into the notice has the canonical form len(V) - N for the '
-            'same container V whose iteration is truncated by take(N, ...), and take(n, it) is islice(it, n); (c) None is '
-            'normalised to a number before the first context is built or every comparison is None-guarded (the sibling '
-            'Optional setting depth gets the same treatment); (d) the notice text flows into the trailing-comment slot '
-            'inside the brackets, forces a break, and the setting is copied unchanged into every derived context; (e) every '
-            'loop of a core container printer over the user container goes through take. Necessary conditions for '
-            '"exactly the first min(len, N) elements + exactly len - N announced"; N < 1 and lying __len__ are NOT decided.',
+    'text': 'max_seq_len, decided on interpreted code: (a) closed-use classification of the setting (compared with len, sub'
+            'tracted from len, islice bound, pass-along); (b) the container printers interpreted (E6) on scenarios of 0..3 '
+            'elements: exactly the first N elements are shown in order, the notice states len(value) - N, dict pairs are tr'
+            'uncated after ordering; (c) the interpreted entry point hands the setting to the root context, None becomes an'
+            ' integer no container length exceeds, an explicit None survives the configuration merge (imported C18.b); (d) '
+            'when elements were dropped the notice is rendered exactly once, as the head of the one trailing comment follow'
+            "ed by the caller's trailing comment, and forces the container to break; the context class interpreted keeps ma"
+            'x_seq_len in every derived context and nobody rebuilds a context by hand or calls the private copier; (e) cove'
+            'rage of the container types.',
     'note': 'trusts itertools.islice; linear forms treat len(x) as an opaque atom',
-    'technique': 'static analysis: closed-use classification of every read of the setting, canonical linear forms, guard '
-                 'facts, def-use from notice text to comment slot',
+    'technique': 'static analysis: abstract interpretation of the container printers, the context class and the entry point; clo'
+                 'sed-use classification; who-may-call',
 }
 
 CONTAINER_KEYS = {'list', 'tuple', 'set', 'dict'}
